@@ -41,14 +41,21 @@ func init() {
 			// the whole range is cheap enough (about 20 s) to be run on every change
 			_ = coilQ
 			_ = byteQ
-			return reqJobs("VH_C01_encode", rng(0, 2001), rng(0, 260), nil)
+			js := reqJobs("VH_C01_encode", rng(0, 2001), rng(0, 260), nil)
+			// the RTU trailer oracle is the library's CRC16; its premise "CRC16 is the Modbus CRC" (the subject of C03) is
+			// discharged in this run as well: table self-check, loop step lemma, base cases
+			js = append(js, sym.Job{Harness: "VH_C03_table_selfcheck", Params: map[string]int{}})
+			js = append(js, jobsOver("VH_C03_crc_step", "n", ints(1, 2, 3))...)
+			js = append(js, jobsOver("VH_C03_crc_whole", "n", ints(0, 1))...)
+			return js
 		},
 		Bounds: map[string]string{
 			"quick":    "20 constructors; unit id, transaction id, addresses, quantities symbolic over their whole range; FC15: every coil count 0..2001 with symbolic coil values; FC16/FC23: every data length 0..260 bytes with symbolic contents",
 			"thorough": "same as quick (the bound is the claim)",
 		},
 		Outside:   []string{"FC15 slices longer than 2001 coils and FC16/23 data longer than 260 bytes (rejected on length alone)", "FC6 data argument of a length other than 2 bytes"},
-		MinCovers: []string{"constructed", "constructor-rejects"},
-		Stubs:     []string{"math/rand.Intn: arbitrary value in range (the transaction id is overwritten by a symbolic one)", "RTU trailer oracle is the real CRC16 (tied to the specification by C03)"},
+		MinCovers: []string{"constructed", "constructor-rejects", "step", "whole"},
+		TimeoutMS: 240000, // CRC step lemma: 2-5 s per query on an idle machine, margin for a loaded one
+		Stubs:     []string{"math/rand.Intn: arbitrary value in range (the transaction id is overwritten by a symbolic one)", "RTU trailer oracle is the real CRC16, tied to the specification in the same run by the CRC loop step lemma and base cases (as in C03)"},
 	})
 }
